@@ -410,7 +410,7 @@ class C06(Property):
         # provenance recorded in the database for every output: the body outputs collected for the instance
         by_pid = {t.persistent_id: f"{t.tag}:{ids[id(t)]}" for t in toks if id(t) in ids}
         provs = []
-        for t in out:
+        for t in (out if "perm" not in case else []):
             if isinstance(t, TerminationToken):
                 continue
             deps = [r["dependee"] for r in await context.database.get_dependees(t.persistent_id)]
@@ -419,8 +419,9 @@ class C06(Property):
         pexp = (";".join(provs) or "-", dict(case, stage="provenance"))
         self._lines.append(f"loopout {case['method']} " + " ".join(words))   # appended together (never misaligned by a crash)
         self._expect.append(exp)
-        self._lines.append(f"loopoutprov {case['method']} " + " ".join(words))
-        self._expect.append(pexp)
+        if "perm" not in case:       # the exhaustive permutation corpus is about arrival order; provenance is compared on all other cases
+            self._lines.append(f"loopoutprov {case['method']} " + " ".join(words))
+            self._expect.append(pexp)
         if not case.get("partial"):
             self._monitor(ctx, case, out)
         nmax = max([len(i["vals"]) for i in case["instances"]], default=0)
